@@ -460,7 +460,7 @@ def run_one(part, seed):
 
 
 def run(ctx):
-    model_batch(ctx, 140 if ctx.tier == 'quick' else 1400)
+    model_batch(ctx, 180 if ctx.tier == 'quick' else 1800)
     reps = {'bootstrap': 12, 'cdd': 25, 'shrinkage': 25, 'delta_method': 40, 'simeval': 25}
     if ctx.tier != 'quick':
         reps = {k: v * 12 for k, v in reps.items()}
@@ -644,6 +644,67 @@ def model_case(rng, kind, ids):
         got = se_delta_method(expr, {k: float(v) for k, v in vals.items()}, cov_df)
         return (f"(StDelta {_lst([ids(c) for c in order])} {_lst([_lst([_q(x) for x in row]) for row in Co])} "
                 f"{_lst([f'({ids(k)}, {_q(v)})' for k, v in grad.items()])} {_q(float(got))})")
+    if kind == 'pct':
+        from pharmpy.tools.bootstrap.results import calculate_results
+        npar = rng.choice([1, 2, 3])
+        names = ['P%d' % i for i in range(npar)]
+        style = rng.choice(['plain', 'permuted', 'ragged'])
+        nrep = rng.choice([1, 2, 3, 4, 7, 10, 21, 40])
+        reps, orders = [], []
+        for k in range(nrep):
+            d = {nm: dy(-200, 400, rng.choice([1, 2, 4, 8, 16])) for nm in names}
+            if style == 'ragged' and npar > 1 and k > 0 and rng.random() < 0.3:
+                del d[rng.choice(names)]
+            order = list(d)
+            if style != 'plain':
+                rng.shuffle(order)
+            reps.append(d)
+            orders.append(order)
+        results = [ModelfitResults(ofv=1.0, parameter_estimates=pd.Series([float(d[n]) for n in o], index=o)) for d, o in zip(reps, orders)]
+        with warnings.catch_warnings():
+            warnings.simplefilter('ignore')
+            r = calculate_results(None, results, original_results=None, included_individuals=[[1]] * nrep)
+        cols = list(r.parameter_estimates.columns)
+        pdist = r.parameter_distribution
+        labs = ['0.05%', '0.5%', '2.5%', '5%', 'median', '95%', '97.5%', '99.5%', '99.95%']
+        obs = [f"({ids(c)}, {_oq(pdist.loc[c, 'min'])}, {_lst([_oq(pdist.loc[c, l]) for l in labs])}, {_oq(pdist.loc[c, 'max'])})" for c in cols]
+        return f"(StPct true {_lst([_series(d, o, ids) for d, o in zip(reps, orders)])} {_lst(obs)})"
+    if kind == 'sim':
+        from types import SimpleNamespace
+        from pharmpy.tools.simeval.results import calculate_results
+        nind = rng.choice([1, 2, 4, 7])
+        style = rng.choice(['plain', 'permuted', 'ragged'])
+        nsim = rng.choice([2, 4, 8, 16, 32]) if style != 'ragged' else rng.choice([3, 5, 10])
+        idl = list(range(1, nind + 1))
+        sims, orders = [], []
+        for _ in range(nsim):
+            d = {i: dy(0, 160, 8) for i in idl}
+            if style == 'ragged':
+                if nind > 1 and rng.random() < 0.3:
+                    del d[rng.choice(idl)]
+                if rng.random() < 0.2:
+                    d[99] = dy(0, 160, 8)
+            order = list(d)
+            if style != 'plain':
+                rng.shuffle(order)
+            sims.append(d)
+            orders.append(order)
+        orig = {i: dy(0, 400, 8) for i in idl}
+        if rng.random() < 0.3:                      # an individual far out: residual >= 3 (or <= -3: not an outlier)
+            orig[idl[0]] = orig[idl[0]] + rng.choice([400, 400, -500])
+        oorder = list(idl)
+        if style != 'plain':
+            rng.shuffle(oorder)
+        sf = SimpleNamespace(modelfit_results=[ModelfitResults(individual_ofv=pd.Series([float(d[i]) for i in o], index=o)) for d, o in zip(sims, orders)])
+        with warnings.catch_warnings():
+            warnings.simplefilter('ignore')
+            r = calculate_results(None, ModelfitResults(individual_ofv=pd.Series([float(orig[i]) for i in oorder], index=oorder)), sf)
+        su = r.iofv_summary
+        idn = lambda i: ids('id%d' % i)
+        obs = [f"(mkSimobs {idn(i)} {_oq(row['original'])} {_oq(row['sampled_mean'])} {_oq(row['sampled_stdev'])} {_oq(row['residual'])} "
+               f"{_oq(row['residual_q1'])} {_oq(row['residual_q3'])} {'true' if bool(row['residual_outlier']) else 'false'})" for i, row in su.iterrows()]
+        ser = lambda d, o: _lst([f'({idn(i)}, (Some {_q(d[i])}))' for i in o])
+        return f"(StSim {'true' if style != 'ragged' else 'false'} {_lst([ser(d, o) for d, o in zip(sims, orders)])} {ser(orig, oorder)} {_lst(obs)})"
     raise ValueError(kind)
 
 
@@ -702,7 +763,7 @@ def model_batch(ctx, n):
     from harness.lib import coqterm as ct
     names = ct.Names()
     ids = lambda s: names.p(str(s))
-    kinds = ['boot', 'boot', 'jack', 'cook', 'shrink', 'ishr', 'delta']
+    kinds = ['boot', 'boot', 'jack', 'cook', 'shrink', 'ishr', 'delta', 'pct', 'sim']
     terms, ks, seeds = [], [], []
     nraise = 0
     for i in range(n):
@@ -722,10 +783,18 @@ def model_batch(ctx, n):
         terms.append(term)
         ks.append(k)
         seeds.append(seed)
-    verdicts = ctx.run_cases('statmodel', 'C19.Model C19.Stats', 'stcase', terms, 'stverdict', shard=60)
+    first = [i for i, k in enumerate(ks) if k not in ('pct', 'sim')]
+    second = [i for i, k in enumerate(ks) if k in ('pct', 'sim')]
+    v1 = ctx.run_cases('statmodel', 'C19.Model C19.Stats', 'stcase', [terms[i] for i in first], 'stverdict', shard=60)
+    v2 = ctx.run_cases('statmodel2', 'C19.Model C19.Stats C19.Stats2', 'st2case', [terms[i] for i in second], 'stverdict2', shard=60)
+    verdicts = [None] * len(ks)
+    for i, v in zip(first, v1):
+        verdicts[i] = v
+    for i, v in zip(second, v2):
+        verdicts[i] = v
     nbad = 0
     for k, seed, v in zip(ks, seeds, verdicts):
-        if 41 in v:
+        if 41 in v or 42 in v:
             ctx.violation('statistic does not equal its documented formula by name: ' + k,
                           {'stats_model': {'kind': k, 'seed': seed}, 'tags': v, 'input': describe_case(k, seed)})
             nbad += 1
